@@ -15,7 +15,11 @@
 (*   delta  seconds until the HTTP-date (clamped at 0);                    *)
 (*   open   the statement does not fix it: no hint or any non-negative     *)
 (*          float.                                                         *)
-(* In every case the classifier must not raise.                            *)
+(* In every case the classifier must not raise.  The harness rotates, per  *)
+(* case, the way the exception is a rate-limit error at all: numeric 429   *)
+(* under status / status_code / code (int or IntEnum) or the marker type   *)
+(* RateLimitError without any status - the expectation does not depend on  *)
+(* it.                                                                     *)
 (*                                                                         *)
 (* Part 2 - honouring.  With hint h, jitter j, random draw u/2 (u in       *)
 (* 0..2) and remaining time r (all in ticks, r = -1: no deadline given)    *)
